@@ -98,6 +98,15 @@ CHECKS = {
          "Bounded enumeration (depth 4, capped breadth, universe = literals of both types + one fresh string/number/key): a missing "
          "separating value is only reported when the enumeration was exhaustive; decisions involving intersections of object types are a "
          "listed finding (the exact/open reading of atoms is not a Boolean algebra)."),
+ "C07": ("Theorem C07_positive_basic_types_materialise_exactly (Model/Materialise.v = the per-tag part of convert_to_schema_no_cache, "
+         "Model/SemSpec.v mem, Model/Ir.v rmember): for every semantic type made of the basic tags and positive literal sets and every basic "
+         "value, the materialised IR type denotes exactly the semantic type; C07_refuted_excluded_literal_sets exhibits the unchanged "
+         "code's violation for 'number without 1' (bare negation, unprintable, contains null). Partial: the mapping/list clauses, helper "
+         "types for recursion, keyof and indexed access are not modelled; they are decided on the implementation: every generated "
+         "semantic expression is materialised with semtype_to_runtypes and judged for printability, helper names, is_same_type after "
+         "converting back, and meaning on enumerated values. One genuine defect found this way was repaired in /repo (fix: 540a637).",
+         "The model is tied to to_schema.rs by comparing its output with the engine's on every semtype without structural components; "
+         "value enumeration is bounded (testing); membership is read under the runtime conventions (null ~ undefined, optional may be nullish)."),
  "C14": ("Theorem C14_every_rebuild_answers_like_a_fresh_process: for every parse and extract (the compiler proper is a parameter), "
          "every initial disk and every finite history of updates and rebuilds, each rebuild of the session model (thread-local cache, "
          "get_or_fetch_file, update_file_content_inner) returns what a fresh process returns for the disk at that moment — by the "
